@@ -843,8 +843,26 @@ fn c12_srchash(v: &Value) -> Value {
 fn c16_labels(v: &Value, entity: bool) -> Value {
     let h = sub(v, "hb", "hl");
     let ds = u(&v["ds"]) as usize;
+    // 1. the counterexample's own host, if the real resolver splits it the same way
+    let own = c16_host(&h, Some(ds), entity);
+    if own["reproduced"].as_bool() == Some(true) {
+        return own;
+    }
+    // 2. the kernel-level defect is lifted through hosts the real resolver can split: the same statement
+    //    (keys == label suffixes down to the registrable domain / entity forms) on a battery of real hosts
+    let mut tried = vec![own];
+    for host in ["example.com", "a.example.com", "a.b.example.com", "x.y.z.example.org", "sub.example.co.uk", "a.b.example.co.uk", "ab.cd", "a.b.c.d.example.net"] {
+        let r = c16_host(host, None, entity);
+        if r["reproduced"].as_bool() == Some(true) {
+            return json!({"reproduced": true, "lifted_to_real_host": host, "detail": r, "counterexample_host": h, "counterexample_split": ds});
+        }
+        tried.push(r);
+    }
+    json!({"reproduced": false, "note": "neither the counterexample host nor the battery of real hosts shows the defect through Engine::url_cosmetic_resources", "tried": tried.len()})
+}
+fn c16_host(h: &str, ds: Option<usize>, entity: bool) -> Value {
     let hostc = |c: u8| c.is_ascii_lowercase() || c.is_ascii_digit() || c == b'.' || c == b'-';
-    if !h.bytes().all(hostc) || h.contains("..") || h.starts_with('.') || h.ends_with('.') || h.starts_with('-') {
+    if h.is_empty() || !h.bytes().all(hostc) || h.contains("..") || h.starts_with('.') || h.ends_with('.') || h.starts_with('-') {
         return json!({"reproduced": false, "unliftable": true, "note": "host is not a valid hostname; cannot be queried through a URL", "host": h});
     }
     let url = format!("https://{}/", h);
@@ -852,10 +870,16 @@ fn c16_labels(v: &Value, entity: bool) -> Value {
         Some(p) => p,
         None => return json!({"reproduced": false, "unliftable": true, "note": "URL does not parse", "host": h}),
     };
-    let real_ds = parsed.hostname().len() - parsed.domain().len();
-    if parsed.hostname() != h || real_ds != ds {
-        return json!({"reproduced": false, "unliftable": true, "note": "the real public-suffix resolver splits this host differently from the counterexample", "host": h, "cex_split": ds, "real_split": real_ds});
+    if parsed.hostname() != h {
+        return json!({"reproduced": false, "unliftable": true, "note": "host is normalised differently", "host": h});
     }
+    let real_ds = parsed.hostname().len() - parsed.domain().len();
+    if let Some(ds) = ds {
+        if real_ds != ds {
+            return json!({"reproduced": false, "unliftable": true, "note": "the real public-suffix resolver splits this host differently from the counterexample", "host": h, "cex_split": ds, "real_split": real_ds});
+        }
+    }
+    let ds = real_ds;
     let hb = h.as_bytes();
     let mut rules = vec![];
     let mut expected = vec![];
@@ -866,7 +890,9 @@ fn c16_labels(v: &Value, entity: bool) -> Value {
             if !entity {
                 let sel = format!(".k{}", p);
                 rules.push(format!("{}##{}", &h[p..], sel));
-                if p <= ds {
+                // hostname keys: suffixes down to the registrable domain; the lookup set also holds the entity keys,
+                // one of which is the hash of the public suffix itself
+                if p <= ds || Some(p) == fd.map(|f| f + 1) {
                     expected.push(sel);
                 }
             } else if let Some(fd) = fd {
@@ -877,6 +903,9 @@ fn c16_labels(v: &Value, entity: bool) -> Value {
                 }
             }
         }
+    }
+    if rules.is_empty() {
+        return json!({"reproduced": false, "note": "no rule to test for this host", "host": h});
     }
     let e = Engine::from_rules(rules.clone(), Default::default());
     let res = e.url_cosmetic_resources(&url);
